@@ -97,9 +97,13 @@ CLAIMED["C17"] = dict(
     text="Decides the structural clauses only: the chunk deque is used strictly as a FIFO; buffered_size is changed only together with the deque and by the number of bytes moved; read_bytes returns None exactly when fewer than len bytes are buffered and mutates nothing then, returns exactly len bytes otherwise and every removed byte reaches the result; every panic-capable site of the parser bodies is dominated by the guard that makes it safe (never panics); end of input with leftover bytes or a pending length prefix is an Err item and never end-of-stream; Pending is only passed on from the inner stream; records parsed in a poll are delivered before an error is reported. The equality of the record sequence over all chunkings of a byte string is NOT decided, nor is helpers/stream/chunks.rs (vectorisation chunks, not byte parsing).",
     ref="§3 C17")
 
+CLAIMED["C07"] = dict(
+    technique="static analysis: expression-tree extraction from MIR (through await / ? / conversions) of the one-bit gadgets and finite evaluation of the extracted GF(2) polynomials over all input combinations against reference truth tables; exact integer-polynomial identity of the replicated multiplication summed over the three helpers; def-use and dominance checks for carry-in constants, returned values and the ripple-loop wiring",
+    text="Decides the gadget algebra and the wiring only: bit_adder / bit_subtractor equal the full adder (of x, !y, c) on all 8 inputs and read the incoming carry before overwriting it; or / bool_or / select equal OR / the multiplexer on all inputs; the three local shares of the semi-honest multiplication add up to the product as a polynomial identity, are sent left / received right and assembled as (local, received); each comparison / subtraction / addition entry point starts from the carry-in that two's-complement arithmetic requires (geq, sub, sat_sub: 1; gt, add, sat_add: 0), passes (x, y) in order and returns the threaded carry / the circuit bits / select(carry, diff, 0) / or(sum, carry); the ripple loops zip x with y padded by ZERO, narrow per bit index and push outputs in order. Share conversion, the PRF, integer multiplication, aggregation and vectorised layouts are NOT decided; no circuit is executed.",
+    ref="§3 C07")
+
 NOT_APPLICABLE = {
     "C01": "end-to-end numerical equality of the MPC histogram with a plaintext reference over all inputs/shardings: no clause of it is visible in code shape; static analysis in reach cannot bound it (DESIGN.md §4)",
-    "C07": "functional correctness of arithmetic/Boolean circuits over all operand values is numerical; would need symbolic execution of the circuits, a different technique family (DESIGN.md §4)",
 }
 
 PENDING = "check not built yet in this revision (planned structural rules are described in DESIGN.md §3); not claimed until the rule module exists"
